@@ -187,7 +187,7 @@ func (o *Optimizer) buildFinalPlan(s Storage, fp Plan, stmt *SelectStmt) (FinalP
 // checkFunctionCalls reports the first call of an unknown function or of a
 // function with a wrong number of arguments, so that such a statement is
 // rejected when the plan is built and not when the first row is evaluated
-func checkFunctionCalls(exprs ...Expression) error {
+func checkFunctionCalls(allowAggr bool, exprs ...Expression) error {
 	var ferr error
 	for _, expr := range exprs {
 		if expr == nil {
@@ -213,6 +213,11 @@ func checkFunctionCalls(exprs ...Expression) error {
 			if fobj, have := GetScalarFunctionByName(fname); have {
 				numArgs, varArgs = fobj.NumArgs, fobj.VarArgs
 			} else if aobj, have := GetAggrFunctionByName(fname); have {
+				if !allowAggr {
+					// Only the select list is evaluated group by group
+					ferr = NewSyntaxError(fc.GetPos(), "Aggregate function %s is only allowed in select fields", fname)
+					return false
+				}
 				numArgs, varArgs = aobj.NumArgs, aobj.VarArgs
 			} else {
 				ferr = NewSyntaxError(fc.GetPos(), "Cannot find function %s", fname)
@@ -235,20 +240,20 @@ func checkFunctionCalls(exprs ...Expression) error {
 func (o *Optimizer) checkStatementFunctions() error {
 	switch stmt := o.stmt.(type) {
 	case *SelectStmt:
-		if err := checkFunctionCalls(stmt.Fields...); err != nil {
+		if err := checkFunctionCalls(true, stmt.Fields...); err != nil {
 			return err
 		}
-		return checkFunctionCalls(stmt.Where.Expr)
+		return checkFunctionCalls(false, stmt.Where.Expr)
 	case *DeleteStmt:
-		return checkFunctionCalls(stmt.Where.Expr)
+		return checkFunctionCalls(false, stmt.Where.Expr)
 	case *PutStmt:
 		for _, kvp := range stmt.KVPairs {
-			if err := checkFunctionCalls(kvp.Key, kvp.Value); err != nil {
+			if err := checkFunctionCalls(false, kvp.Key, kvp.Value); err != nil {
 				return err
 			}
 		}
 	case *RemoveStmt:
-		return checkFunctionCalls(stmt.Keys...)
+		return checkFunctionCalls(false, stmt.Keys...)
 	}
 	return nil
 }
